@@ -48,6 +48,9 @@ int64_t schedSoloEnd();
 // solo steps at which the library came back from a non-re-entrant libc facility (since schedSoloBegin)
 std::vector<int64_t> schedSoloPreferredSteps();
 
+// f on a fresh thread (pristine thread-local storage), joined before returning
+void schedRunOnFreshThread(const std::function<void()> &f);
+
 // per-operation deterministic step budget; exceeding it aborts the contained
 // call as CALL_HUNG. 0 disables.
 void schedSetOpBudget(int64_t budget);
